@@ -378,6 +378,18 @@ Section Spec.
     destruct Ha as [<-|[]]. cbn. split; [reflexivity|]. exists w. split; [congruence|]. eapply nth_error_In; eauto.
   Qed.
 
+  Theorem added_terms_gen carry d imp cs outs outs' i v v' :
+    cs <> [] -> wf outs cs -> modify_gen carry d imp cs outs = Ok outs' ->
+    nth_error outs i = Some v -> nth_error outs' i = Some v' ->
+    exists l, v' = extend_fuzzy v l /\
+      Forall (fun a => a_implication a = imp /\ In (a_term a) (ov_terms v)) l.
+  Proof.
+    intros Hne Hwf Hm Hv Hv'. destruct (modify_gen_extended carry d imp Hne Hwf) as [o [H1 [_ H2]]].
+    assert (o = outs') by congruence. subst o. rewrite (H2 _ _ Hv) in Hv'. inversion Hv'; subst v'.
+    eexists. split; [reflexivity|]. apply Forall_forall. intros a Ha.
+    apply contributions_with_in in Ha. destruct Ha as [A [w [Hw Hin]]]. split; [exact A|]. congruence.
+  Qed.
+
   (* ---- Rule.trigger *)
   Theorem not_loaded_rule_raises (m : modify_fn) r imp outs : rule_loaded r = false -> trigger_with m r imp outs = Err ERuntime.
   Proof. unfold trigger_with. now intros ->. Qed.
@@ -585,11 +597,11 @@ Section OverR.
     option_map (fun v => map (@a_degree R) (ov_fuzzy v)) (nth_error o 1) = Some [1 / 2].
   Proof. rewrite w_fixed. intros H; inversion H; subst o.
     cbn [nth_error option_map map ov_fuzzy extend_fuzzy with_fuzzy w_y mk_out app mk_activated a_degree].
-    rewrite sanitize_R, w_d_R. reflexivity. Qed.
+    rewrite sanitize_R. change (Rlit 1 (-1)) with (@w_d R NumR). rewrite w_d_R. reflexivity. Qed.
 End OverR.
 
 (* ======================================================================= Part 4: binary64 floats *)
-From Coq Require Import PrimFloat.
+From Coq Require Import PrimFloat FloatAxioms FloatOps SpecFloat.
 From VF Require Import NumF.
 Section OverF.
   Let NF := NumF true [].
@@ -597,9 +609,9 @@ Section OverF.
   Lemma w_moves_F : @sanitize float NF (@w_very float NF) <> @sanitize float NF (@w_d float NF).
   Proof. intros H. apply (f_equal (fun x => PrimFloat.eqb x 0x1p-1%float)) in H. vm_compute in H. discriminate. Qed.
 
-  Theorem modify_spec_refuted_F : ~ @modify_spec_for float NF (modify_gen true).
+  Theorem modify_spec_refuted_F : ~ @modify_spec_for float NF (@modify_gen float NF true).
   Proof. exact (refute_spec_if w_moves_F). Qed.
-  Theorem conclusions_order_refuted_F : ~ @order_insensitive_for float (modify_gen true).
+  Theorem conclusions_order_refuted_F : ~ @order_insensitive_for float (@modify_gen float NF true).
   Proof. exact (refute_order_if w_moves_F). Qed.
 
   (* the degree setter on the special values: NaN -> 0, -inf -> 0, +inf -> 1; finite values unchanged *)
@@ -609,16 +621,16 @@ Section OverF.
   Proof. vm_compute. reflexivity. Qed.
   Theorem sanitize_F_posinf : @sanitize float NF PrimFloat.infinity = 1%float.
   Proof. vm_compute. reflexivity. Qed.
+  Lemma not_inf (d : float) : PrimFloat.is_infinity d = false ->
+    PrimFloat.eqb d infinity = false /\ PrimFloat.eqb d neg_infinity = false.
+  Proof.
+    unfold PrimFloat.is_infinity. rewrite !eqb_spec, abs_spec.
+    change (Prim2SF infinity) with (S754_infinity false). change (Prim2SF neg_infinity) with (S754_infinity true).
+    destruct (Prim2SF d) as [[|]| [|] | |[|] m e]; cbn; auto.
+  Qed.
   Theorem sanitize_F_finite (d : float) : Fisfinite d = true -> @sanitize float NF d = d.
   Proof.
-    unfold Fisfinite, sanitize; cbn. destruct (PrimFloat.is_nan d) eqn:En; [discriminate|]. cbn.
-    intros Hi. apply negb_true_iff in Hi. unfold PrimFloat.is_infinity in Hi.
-    destruct (PrimFloat.eqb d infinity) eqn:E1.
-    - exfalso. revert Hi E1. unfold PrimFloat.is_infinity. 
-      rewrite !FloatAxioms.eqb_spec, FloatAxioms.abs_spec.
-      destruct (FloatOps.Prim2SF d) as [[|]| [|] | |[|] m e]; cbn; congruence.
-    - destruct (PrimFloat.eqb d neg_infinity) eqn:E2; [|reflexivity].
-      exfalso. revert Hi E2. rewrite !FloatAxioms.eqb_spec, FloatAxioms.abs_spec.
-      destruct (FloatOps.Prim2SF d) as [[|]| [|] | |[|] m e]; cbn; congruence.
+    unfold Fisfinite, sanitize; cbn. intros H. apply andb_true_iff in H. destruct H as [H1 H2].
+    apply negb_true_iff in H1, H2. rewrite H1. destruct (@not_inf d H2) as [A B]. rewrite A, B. reflexivity.
   Qed.
 End OverF.
